@@ -373,17 +373,25 @@ class SeriesVal:
         r._unordered = True
         return r
 
-    def map(self, fn):
+    def map(self, fn, na_action=None):
+        """Series.map(fn): element i of the result is fn(element i).  na_action='ignore' (pandas): null elements are propagated
+        as NaN WITHOUT being passed to fn."""
+        if na_action not in (None, "ignore"):
+            raise Unsupported(f"Series.map(na_action={na_action!r})")
         I = cur().ghost["interp"]
         memo = {}
+        skip_nulls = na_action == "ignore"
 
         def at(i):
             k = i.get_id()
             if k not in memo:
-                memo[k] = I.call(fn, [self.at(i)])
+                if skip_nulls and cur().decide(SBool(self.null(i)), "map(na_action='ignore'): element is null"):
+                    memo[k] = SAny(name="nan")
+                else:
+                    memo[k] = I.call(fn, [self.at(i)])
             return memo[k]
 
-        return self.derive(at=at, null=lambda i: z3.BoolVal(False), kind="any")
+        return self.derive(at=at, null=(lambda i: self.null(i)) if skip_nulls else (lambda i: z3.BoolVal(False)), kind="any")
 
     def pyvc_getitem(self, I, k):
         if isinstance(k, SeriesVal):
